@@ -73,7 +73,7 @@ func c10() {
 		desc := fmt.Sprintf("case %d: %d threads %v spawners=%d gomaxprocs=%d flags=%#x loader_spin=%d %s", i, nthreads, tc.Threads[:min(4, nthreads)], tc.Spawners, tc.GoMaxProcs, flags, tc.LoaderSpin, variant)
 		if err != nil || res.TimedOut || res.Line("done") == nil {
 			run.Count("watchdog_or_crash", 1)
-			run.Inconclusive(fmt.Sprintf("tsync child did not finish (%s): %v %s", desc, err, tail(res.Stderr, 300)))
+			run.SoftInconclusive(fmt.Sprintf("tsync child did not finish (%s): %v %s", desc, err, tail(res.Stderr, 300)))
 			return
 		}
 		run.Count("children", 1)
